@@ -13,6 +13,8 @@ use crate::common::*;
 use cfgc::*;
 use serde_json::{json, Value};
 use spdcalc::*;
+use spdcalc::beam::IdlerBeam;
+use spdcalc::dim::ucum::{M, RAD};
 use std::io::BufRead;
 use std::str::FromStr;
 
@@ -137,6 +139,15 @@ pub fn roundtrip(s: &SPDC) -> Value {
     let t1 = serde_json::to_string(&c1).unwrap_or_default();
     let back: Result<SPDCConfig, _> = serde_json::from_str(&t1);
     let json_rt = match &back { Ok(b) => *b == c1, Err(_) => false };
+    let cfg1_back = match &back { Ok(b) => cfg_json(b), Err(e) => json!({"error": e.to_string()}) };
+    // the standalone public conversions From<SPDC> for PumpConfig / SignalConfig / IdlerConfig, put into the exported configuration
+    let standalone = SPDCConfig { pump: s.clone().into(), signal: s.clone().into(), idler: AutoCalcParam::Param(s.clone().into()), ..c1.clone() };
+    // "auto" against the explicit public calls on the FINISHED setup
+    let final_theta = guarded_loc(|| *(s.crystal_setup.optimum_theta(&s.signal, &s.pump) / RAD)).ok();
+    let final_idler = guarded_loc(|| IdlerBeam::try_new_optimum(&s.signal, &s.pump, &s.crystal_setup, &s.pp)).ok().and_then(|r| r.ok());
+    let final_period = guarded_loc(|| optimum_poling_period(&s.signal, &s.pump, &s.crystal_setup)).ok().and_then(|r| r.ok());
+    let final_zs = guarded_loc(|| *(s.crystal_setup.optimal_waist_position(s.signal.vacuum_wavelength(), s.signal.polarization()) / M)).ok();
+    let final_zi = guarded_loc(|| *(s.crystal_setup.optimal_waist_position(s.idler.vacuum_wavelength(), s.idler.polarization()) / M)).ok();
     let o2 = outcome(|| c1.clone().try_as_spdc());
     let (s2j, c2j, c2_eq, t2) = match &o2.3 {
       Some(s2) => {
@@ -145,7 +156,9 @@ pub fn roundtrip(s: &SPDC) -> Value {
       }
       None => (Value::Null, Value::Null, false, String::new()),
     };
-    json!({"cfg1": cfg_json(&c1), "json1": t1, "json1_roundtrip": json_rt,
+    json!({"cfg1": cfg_json(&c1), "json1": t1, "json1_roundtrip": json_rt, "cfg1_back": cfg1_back, "standalone": cfg_json(&standalone),
+           "final": {"theta": final_theta.map(fx), "idler": final_idler.as_ref().map(|b| beam_json(b)),
+                     "period": final_period.map(|p| fx(*(p / M))), "zs": final_zs.map(fx), "zi": final_zi.map(fx)},
            "second": {"class": o2.0, "msg": o2.1, "loc": o2.2, "setup": s2j, "cfg2": c2j, "cfg2_equals_cfg1": c2_eq, "json2": t2}})
   });
   match r {
@@ -170,6 +183,28 @@ fn targeted() -> Vec<(&'static str, Value)> {
     ("asymmetric:idler_explicit", base(31.41592, 1.23456, Value::Null, idl.clone())),
     ("asymmetric:pp_explicit", base(31.41592, 1.23456, json!({"poling_period_um": 9.87654, "apodization": {"kind": "Gaussian", "parameter": {"fwhm_um": 777.123}}}), idl.clone())),
     ("asymmetric:pp_negative", base(31.41592, 1.23456, json!({"poling_period_um": -9.87654, "apodization": {"kind": "Interpolate", "parameter": [0.1, 0.5, 1.0, 0.25]}}), json!("auto"))),
+    ("theta_auto:noncollinear_signal", {
+      let mut j = base(31.41592, 1.23456, Value::Null, json!("auto"));
+      j["crystal"]["theta_deg"] = json!("auto");
+      j
+    }),
+    ("theta_auto:noncollinear_signal_external", {
+      let mut j = base(31.41592, 1.23456, Value::Null, json!("auto"));
+      j["crystal"]["theta_deg"] = json!("auto");
+      j["signal"].as_object_mut().unwrap().remove("theta_deg");
+      j["signal"]["theta_external_deg"] = json!(2.75);
+      j
+    }),
+    ("counter_propagation:true", {
+      let mut j = base(31.41592, 1.23456, Value::Null, json!("auto"));
+      j["crystal"]["counter_propagation"] = json!(true);
+      j
+    }),
+    ("expr_crystal:valid", {
+      let mut j = base(31.41592, 1.23456, Value::Null, json!("auto"));
+      j["crystal"]["kind"] = json!({"no": "sqrt(2.7359+0.01878/(l^2-0.01822)-0.01354*l^2)", "ne": "sqrt(2.3753+0.01224/(l^2-0.01667)-0.01516*l^2)"});
+      j
+    }),
     ("wrap:phi_near_360", base(359.99996, 1.5, Value::Null, json!("auto"))),
     ("wrap:phi_negative", base(-0.00004, 1.5, Value::Null, json!("auto"))),
     ("wrap:theta_negative", base(10.0, -3.25, Value::Null, json!("auto"))),
@@ -205,6 +240,8 @@ fn cfg_stream(seed: u64, n: usize, only: Option<Value>) {
         let t = serde_json::to_string(&cfg).unwrap_or_default();
         let back: Result<SPDCConfig, _> = serde_json::from_str(&t);
         o["cfg_json_roundtrip"] = json!(match &back { Ok(b) => *b == cfg, Err(_) => false });
+        // ... and compared field by field (not through the derived PartialEq)
+        o["cfg_back"] = match &back { Ok(b) => cfg_json(b), Err(e) => json!({"error": e.to_string()}) };
         o["cfg_json_text"] = json!(t);
         if let Ok(Ok(s)) = guarded_loc(|| cfg.clone().try_as_spdc()) {
           o["roundtrip"] = roundtrip(&s);
@@ -228,9 +265,12 @@ fn json_floats(seed: u64, n: usize) {
   let mut rng = Rng::new(seed);
   let mut fails: Vec<Value> = vec![];
   let mut counts = serde_json::Map::new();
+  // distinct values really tested: the set of bit patterns
+  let seen: std::cell::RefCell<std::collections::HashSet<u64>> = std::cell::RefCell::new(std::collections::HashSet::new());
   let mut check = |class: &str, x: f64, fails: &mut Vec<Value>, counts: &mut serde_json::Map<String, Value>| {
     let c = counts.entry(class.to_string()).or_insert(json!(0));
     *c = json!(c.as_u64().unwrap_or(0) + 1);
+    seen.borrow_mut().insert(x.to_bits());
     let t = serde_json::to_string(&x).unwrap_or_default();
     let back: Result<f64, _> = serde_json::from_str(&t);
     let std_back: Result<f64, _> = t.parse::<f64>();
@@ -285,6 +325,7 @@ fn json_floats(seed: u64, n: usize) {
   // numbers inside a full configuration: to_string / from_str of SPDCConfig with arbitrary finite fields
   let mut cfg_bad: Vec<Value> = vec![];
   let mut cfg_n = 0usize;
+  let mut cfg_texts: std::collections::HashSet<u64> = std::collections::HashSet::new();
   for _ in 0..(n / 50 + 20) {
     let mut c = SPDCConfig::default();
     let mut r = || { let mut b = rng.next_u64(); if (b >> 52) & 0x7ff == 0x7ff { b &= !(1u64 << 62); } f64::from_bits(b) };
@@ -299,6 +340,12 @@ fn json_floats(seed: u64, n: usize) {
     c.deff_pm_per_volt = r();
     cfg_n += 1;
     let t = serde_json::to_string(&c).unwrap_or_default();
+    {
+      use std::hash::{Hash, Hasher};
+      let mut h = std::collections::hash_map::DefaultHasher::new();
+      t.hash(&mut h);
+      cfg_texts.insert(h.finish());
+    }
     let back: Result<SPDCConfig, _> = serde_json::from_str(&t);
     if !matches!(&back, Ok(b) if *b == c) && cfg_bad.len() < 5 {
       cfg_bad.push(json!({"text": t, "error": back.as_ref().err().map(|e| e.to_string())}));
@@ -326,6 +373,9 @@ fn json_floats(seed: u64, n: usize) {
       "option_field": match b2 { Ok(b) => format!("text has null; parses back as {:?} (value silently dropped)", b.pump.spectrum_threshold), Err(e) => format!("Err: {}", e) },
       "autocalc_field": match b3 { Ok(b) => format!("parses back as {:?}", b.signal.waist_position_um), Err(e) => format!("text has null; from_str Err: {}", e) }}));
   }
+  let distinct_values = seen.borrow().len();
+  let distinct_hard: std::collections::HashSet<&str> = hard.iter().cloned().collect();
   emit(json!({"kind": "json_floats", "n": n, "counts": counts, "bad": bad, "fails": fails, "hard_strings": hard.len(), "hard_bad": hard_bad,
-              "configs": cfg_n, "config_bad": cfg_bad, "nonfinite": nonfinite}));
+              "configs": cfg_n, "config_bad": cfg_bad, "nonfinite": nonfinite,
+              "distinct_values": distinct_values, "distinct_hard_strings": distinct_hard.len(), "distinct_configs": cfg_texts.len()}));
 }
